@@ -154,6 +154,9 @@ R1 = {
         M("algo/Monty.tla", "algo/Monty_reduce_W3N2.cfg"),
         M("algo/Monty.tla", "algo/Monty_amm_W2N3.cfg"),
         M("algo/Monty.tla", "algo/Monty_reduce_W2N3.cfg"),
+        M("algo/Monty.tla", "algo/Monty_params_W2N2.cfg"), M("algo/Monty.tla", "algo/Monty_params_W2N3.cfg"), M("algo/Monty.tla", "algo/Monty_params_W3N2.cfg"),
+        M("algo/Monty.tla", "algo/Monty_params_W4N2.cfg", tiers=T, workers=8), M("algo/Monty.tla", "algo/Monty_params_W2N4.cfg", tiers=T, workers=8),
+        M("algo/Monty.tla", "algo/Monty_params_W3N3.cfg", tiers=T, workers=8),
         M("algo/Monty.tla", "algo/Monty_amm_W4N2.cfg", tiers=T, workers=12, timeout=3000),
         M("algo/Monty.tla", "algo/Monty_reduce_W4N2.cfg", tiers=T, workers=12, timeout=3000),
         M("algo/Monty.tla", "algo/Monty_amm_W2N4.cfg", tiers=T, workers=12, timeout=3000),
